@@ -57,6 +57,9 @@ def lexer(raw: str) -> _LEX_STREAM:
     start: int = 0
     is_string: bool = False
     for i, s in enumerate(raw):
+        if is_string and s != '"':
+            # Everything up to the closing quote belongs to the string.
+            continue
         if s.isspace() or s in {')', '(', ',', '=', '"'}:
             val = raw[start:i]
             start = i + 1
@@ -83,6 +86,8 @@ def lexer(raw: str) -> _LEX_STREAM:
                 yield (TokenType.EQUAL, None)
             elif s == '"':
                 is_string = True
+    if is_string:
+        raise MesonException('unterminated string in cfg expression')
     val = raw[start:]
     if val:
         # This should always be an identifier
